@@ -104,7 +104,7 @@ Section RejectP.
     intros sc st u H. unfold Parser.p_expr. destruct (parse_expr (toks st)); [|exact I]. cbn. rewrite H. reflexivity.
   Qed.
   Lemma sticky_p_path : sticky (p_path parse_path).
-  Proof. intros sc st u H. unfold p_path. destruct (parse_path (toks st)); [|exact I]. exact H. Qed.
+  Proof. intros sc st u H. unfold p_path. destruct (parse_path (toks st)); [|exact I]. cbn. rewrite H. reflexivity. Qed.
   Lemma sticky_p_closure : sticky (p_closure parse_closure).
   Proof.
     intros sc st u H. unfold p_closure. destruct (parse_closure (toks st)); [|exact I]. cbn. rewrite H. reflexivity.
